@@ -63,6 +63,7 @@ def quantified(eng: Engine, e: ast.Call, st: State, is_all: bool):
             conds = []
             for it in elem_at:
                 cond, vals, extra, sc = eng.comp_body(g, [gen.elt], it, s1, e)
+                eng.comp_obligations(s1, e, lambda f: f)
                 for f in extra:
                     s1.assume(f)
                 t = eng.truth(vals[0], sc, e)
@@ -72,6 +73,7 @@ def quantified(eng: Engine, e: ast.Call, st: State, is_all: bool):
             continue
         i = z3.Int(fresh_name("qi"))
         cond, vals, extra, sc = eng.comp_body(g, [gen.elt], elem_at(i), s1, e)
+        eng.comp_obligations(s1, e, lambda f: z3.ForAll([i], z3.Implies(z3.And(0 <= i, i < n), f)))
         guard = z3.And(0 <= i, i < n)
         for f in extra:
             s1.assume(z3.ForAll([i], z3.Implies(guard, f)))
